@@ -296,7 +296,7 @@ func sysSpecs() []sysSpec {
 	}
 	for _, h := range ExtendedHolders {
 		for _, c := range []string{"definition", "opParam", "codeResponse"} {
-			for _, t := range []string{"localDef", "remoteDef", "anonProperty"} {
+			for _, t := range []string{"localDef", "remoteDef", "anonProperty", "inlineObject", "inlineTuple", "inlineAllOf"} {
 				h, c, t := h, c, t
 				add(fmt.Sprintf("extended/%s/%s/%s", h, c, t), func(b *Bundle) { b.Tag("extended"); b.Plant(h, c, t, 1) })
 			}
